@@ -107,6 +107,58 @@ def binary_records(ck, tree, messages, nworkers=16):
     return recs
 
 
+def fault_records(ck, tree, messages, nworkers=16):
+    """Real qmail-remote with ONE failing system call per run (EIO on the k-th intercepted call, every k): a read error on the
+    message must never look like the end of the message - whatever fails, a transmission reported as accepted carries the
+    whole message, and an abandoned one contains no end-of-data."""
+    import sandbox
+    eps = [smtpsrv.Endpoint(100 + i) for i in range(nworkers)]
+    with open(os.path.join(tree.root, "control", "smtproutes"), "a") as f:
+        f.write("".join(ep.route() + "\n" for ep in eps))
+    # how many intercepted calls a clean run makes
+    tr = ck.scratch.path("fault0.trace")
+    env0 = sandbox.shim_env(tree, trace=tr, role="remote")
+    smtpsrv.run_remote(tree, eps[0], bytes(messages[0]), "s@sender.test", ["r@" + eps[0].host], {"rawdata": True}, env=env0)
+    ncalls = len([e for e in sandbox.read_trace(tr) if e.get("c") not in ("exit", "hello")])
+    if ncalls < 5:
+        raise Infra("the traced qmail-remote made only %d intercepted calls" % ncalls)
+    q = queue.Queue()
+    for mi, m in enumerate(messages):
+        for k in range(1, ncalls + 12):
+            q.put((mi, m, k))
+    recs = []
+    lock = threading.Lock()
+
+    def work(ep):
+        while True:
+            try:
+                mi, m, k = q.get_nowait()
+            except queue.Empty:
+                return
+            t = ck.scratch.path("fault.%d.%d.trace" % (mi, k))
+            env = sandbox.shim_env(tree, trace=t, role="remote", extra={"VERIF_FAULT": "%d:5" % k})
+            obs, out, rc = smtpsrv.run_remote(tree, ep, bytes(m), "s@sender.test", ["r@" + ep.host], {"rawdata": True}, env=env, timeout=8.0)
+            hit = [e for e in sandbox.read_trace(t) if e.get("res") == -1 and e.get("e") == 5]
+            os.unlink(t) if os.path.exists(t) else None
+            raw = obs.get("raw", b"")
+            if raw.endswith(b"QUIT\r\n"):
+                raw = raw[:-6]
+            first = out[:1].decode("latin1")
+            res = "ok" if b"\0K" in out or first == "K" else "failed"
+            with lock:
+                recs.append({"i": list(m), "c": 0, "o": list(raw), "r": res, "k": k, "on": (hit[0].get("c", "?") + ":" + str(hit[0].get("fd", ""))) if hit else "none",
+                             "report": out.decode("latin1")[:120]})
+
+    ths = [threading.Thread(target=work, args=(ep,)) for ep in eps]
+    for t in ths:
+        t.start()
+    for t in ths:
+        t.join()
+    for ep in eps:
+        ep.close()
+    return recs
+
+
 def enum_messages(maxlen):
     out = [[]]
     level = [[]]
@@ -158,6 +210,17 @@ def main():
         if len(noconn) > len(brecs) // 20:
             raise Infra("qmail-remote did not reach the scripted server in %d of %d runs: %s" % (len(noconn), len(brecs), noconn[0]))
         recs += [r for r in brecs if not r["r"].startswith("noconn")]
+        # one failing system call per run
+        fmsgs = [list(b"Subject: f\n\n" + b"".join(b"line %04d of the body, with a dot line next\n.\n..x\n" % i for i in range(60))),
+                 list(b"a\r\nb\n" * 700), [120] * 1023 + [10] + [46, 10] * 600]
+        if thorough:
+            fmsgs += randoms[:6]
+        frecs = fault_records(ck, tree, fmsgs)
+        recs += frecs
+        ck.cov["runs_with_one_failing_call"] = len(frecs)
+        ck.cov["failing_reads_of_the_message"] = len([r for r in frecs if r["on"] == "read:0"])
+        if not ck.cov["failing_reads_of_the_message"]:
+            raise Infra("no injected fault hit a read of the message")
         ck.cov["seam_available"] = seam_ok
         ck.cov["binary_level_transmissions"] = len(brecs) - len(noconn)
 
@@ -186,7 +249,9 @@ def main():
             best[why] = r
     for why, r in sorted(best.items()):
         key = "%s:in=%s" % (why, ",".join(map(str, r["i"][:24])))
-        ck.violation(key, "message %s sent as %s (%s, chunk %s)" % (r["i"][:24], r["o"][:40], r["r"], r["c"]), r)
+        if "on" in r:
+            key += ":fault=" + r["on"]
+        ck.violation(key, "message %s sent as %s (%s, chunk %s%s)" % (r["i"][:24], r["o"][:40], r["r"], r["c"], (", EIO injected on %s" % r["on"]) if "on" in r else ""), r)
     ck.finish()
 
 
